@@ -122,6 +122,16 @@ Proof.
   destruct (r_final st) as [f|]; [destruct (negb (f =? fs))|]; cbn; auto.
 Qed.
 
+Lemma bump_bounds r fs :
+  RB r -> RB (bump_highest r fs) /\ r_highest r <= r_highest (bump_highest r fs) <= Z.max (r_highest r) fs /\
+  r_start (bump_highest r fs) = r_start r /\ r_buf (bump_highest r fs) = r_buf r /\
+  (RESET_ADVANCES_HIGHEST = true -> r_highest (bump_highest r fs) = Z.max (r_highest r) fs).
+Proof.
+  intros B. unfold bump_highest. destruct (RESET_ADVANCES_HIGHEST && (fs >? r_highest r)) eqn:E.
+  - split; [destruct B; constructor; unfold top in *; cbn in *; try assumption; lia|]. cbn. intuition lia.
+  - split; [exact B|]. split; [lia|]. split; [reflexivity|]. split; [reflexivity|]. intros F. rewrite F in E. cbn in E. lia.
+Qed.
+
 (* ------------------------------------------------------------------------------------ *)
 (* Connection invariant                                                                   *)
 
@@ -135,7 +145,8 @@ Definition SOK (s : strm) : Prop := RB (sm_recv s) /\ r_highest (sm_recv s) <= s
 Record CInv (c : conn) : Prop := {
   ci_msd : 0 <= c_msd c;
   ci_streams : Forall (fun p => SOK (snd p)) (c_streams c);
-  ci_sum : sum_hi (c_streams c) <= l_used (c_data c);
+  ci_sum : sum_hi (c_streams c) + c_gone c <= l_used (c_data c);
+  ci_gone : 0 <= c_gone c;
   ci_used : l_used (c_data c) <= l_value (c_data c);
   ci_bidi : 0 <= l_used (c_bidi c) <= l_value (c_bidi c);
   ci_uni : 0 <= l_used (c_uni c) <= l_value (c_uni c);
@@ -143,7 +154,10 @@ Record CInv (c : conn) : Prop := {
   ci_chal : Zlen (c_chal c) <= MAX_REMOTE_CHALLENGES;
   ci_lchal : Zlen (c_lchal c) <= MAX_LOCAL_CHALLENGES;
   ci_retire : Zlen (c_retire c) <= Z.min (LOCAL_ACTIVE_CID_LIMIT * 4) MAX_PENDING_RETIRES;
-  ci_avail : 1 + Zlen (c_cid_avail c) <= LOCAL_ACTIVE_CID_LIMIT
+  ci_avail : 1 + Zlen (c_cid_avail c) <= LOCAL_ACTIVE_CID_LIMIT;
+  ci_tls : forall m, TLS_MESSAGE_CAP = Some m -> Zlen (c_tls c) < Z.max 4 m;
+  ci_pathq : Forall (fun p => Zlen (snd p) <= MAX_REMOTE_CHALLENGES) (c_paths c);
+  ci_pathn : forall m, NETWORK_PATHS_CAP = Some m -> Zlen (c_paths c) <= Z.max 0 (m - 1)
 }.
 
 Lemma CInv_init cl msd md cb : 0 <= msd -> 0 <= md -> 0 <= cb -> CInv (conn_init cl msd md cb).
@@ -266,7 +280,8 @@ Proof.
   pose proof (hr_bounds (sm_recv s) fs B) as HB.
   destruct (handle_reset (sm_recv s) fs) as [o r'].
   destruct HB as (B' & _ & _ & Hh).
-  assert (U : CInv (add_used (set_streams c1 (sset sid (with_recv s r') (c_streams c1))) (Z.max 0 (fs - r_highest (sm_recv s))))).
+  destruct (bump_bounds r' fs B') as (B'' & Hb & _).
+  assert (U : CInv (add_used (set_streams c1 (sset sid (with_recv s (bump_highest r' fs)) (c_streams c1))) (Z.max 0 (fs - r_highest (sm_recv s))))).
   { apply update_inv; try assumption; lia. }
   destruct o; intros H; inversion H; subst; try exact I; apply U.
 Qed.
@@ -328,6 +343,11 @@ Proof.
   destruct (f p); rewrite !sum_hi_cons; lia.
 Qed.
 
+Lemma sum_hi_split f l : sum_hi l = sum_hi (filter (fun p => negb (f p)) l) + sum_hi (filter f l).
+Proof.
+  induction l as [|p t IH]; [reflexivity|]. cbn [filter]. destruct (f p); cbn [negb]; rewrite !sum_hi_cons; lia.
+Qed.
+
 Lemma Forall_filter {A} (P : A -> Prop) f l : Forall P l -> Forall P (filter f l).
 Proof. induction 1; cbn; [constructor|]. destruct (f x); [constructor|]; assumption. Qed.
 
@@ -335,7 +355,7 @@ Lemma write_inv c r c' : CInv c -> write c = (r, c') -> CInv c'.
 Proof.
   intros I. unfold write.
   assert (Hu : 0 <= l_used (c_data c)).
-  { pose proof (sum_hi_nonneg _ (ci_streams _ I)). pose proof (ci_sum _ I). lia. }
+  { pose proof (sum_hi_nonneg _ (ci_streams _ I)). pose proof (ci_sum _ I). pose proof (ci_gone _ I). lia. }
   pose proof (raise_limit_props FT_MAX_DATA (c_data c) ltac:(pose proof (ci_used _ I); lia)) as PD.
   pose proof (raise_limit_props FT_MAX_STREAMS_BIDI (c_bidi c) (ci_bidi _ I)) as PB.
   pose proof (raise_limit_props FT_MAX_STREAMS_UNI (c_uni c) (ci_uni _ I)) as PU.
@@ -346,10 +366,14 @@ Proof.
   destruct (raise_streams (c_streams c)) as [ss ws]. cbv zeta in PD, PB, PU, PS. cbn [fst] in *.
   destruct PD as (PD1 & PD2 & PD3). destruct PB as (PB1 & PB2 & PB3). destruct PU as (PU1 & PU2 & PU3).
   destruct PS as (S1 & S2 & _). pose proof (ci_bidi _ I). pose proof (ci_uni _ I).
-  intros Hw; inversion Hw; subst; clear Hw. destruct I. constructor; cbn; try assumption; try lia.
-  - apply Forall_filter, S1.
-  - pose proof (sum_hi_filter (fun p => negb (stream_finished (snd p))) ss S1). unfold sum_hi in *. lia.
-  - vm_compute. discriminate.
+  intros Hw; inversion Hw; subst; clear Hw.
+  pose proof (sum_hi_split (fun p => stream_finished (snd p)) ss) as SP. cbv beta in SP.
+  pose proof (sum_hi_nonneg _ (Forall_filter _ (fun p => stream_finished (snd p)) _ S1)) as SN.
+  change (fold_right (fun p a => r_highest (sm_recv (snd p)) + a) 0) with sum_hi.
+  destruct I. constructor;
+    cbn [c_msd c_streams c_data c_bidi c_uni c_crypto c_chal c_lchal c_retire c_cid_avail c_gone c_tls c_paths];
+    try assumption; try lia.
+  all: try (apply Forall_filter, S1); try (vm_compute; discriminate).
 Qed.
 
 Lemma limit_lost_inv c k : CInv c -> CInv (limit_lost c k).
@@ -367,6 +391,22 @@ Proof.
 Qed.
 
 (* ---------- CRYPTO ---------- *)
+Lemma byte_at_range l i : 0 <= byte_at l i < 256.
+Proof. unfold byte_at. apply Z.mod_pos_bound. lia. Qed.
+
+Lemma tls_parse_bound m : TLS_MESSAGE_CAP = Some m ->
+  forall fuel buf t, (length buf <= fuel)%nat -> tls_parse fuel buf = Some t -> Zlen t < Z.max 4 m.
+Proof.
+  intros Hc. induction fuel as [|fuel IH]; intros buf t Hl; cbn [tls_parse].
+  - intros H; inversion H; subst. destruct t; [cbn; lia|cbn in Hl; lia].
+  - destruct (Zlen buf <? 4) eqn:E4; [intros H; inversion H; subst; lia|].
+    pose proof (byte_at_range buf 1). pose proof (byte_at_range buf 2). pose proof (byte_at_range buf 3).
+    set (mlen := 4 + (byte_at buf 1 * 65536 + byte_at buf 2 * 256 + byte_at buf 3)).
+    rewrite Hc. destruct (mlen >? m) eqn:Em; [discriminate|].
+    destruct (Zlen buf <? mlen) eqn:El; [intros Hq; inversion Hq; subst; lia|].
+    apply IH. pose proof (Zlen_zdrop mlen buf) as Z. unfold Zlen in *. lia.
+Qed.
+
 Lemma handle_crypto_inv c off data r c' : CInv c -> handle_crypto c off data = (r, c') -> CInv c'.
 Proof.
   intros I. unfold handle_crypto.
@@ -378,7 +418,10 @@ Proof.
   destruct HB as (B' & Hs & Ht & _ & _).
   assert (U : CInv (set_crypto c r')).
   { destruct I. constructor; cbn; try assumption. split; [exact B'|]. unfold top in *. lia. }
-  destruct o; intros H; inversion H; subst; try exact I; exact U.
+  destruct o as [|d0 f0| |]; try (intros H; inversion H; subst; try exact I; exact U).
+  destruct (tls_parse (length (c_tls c ++ d0)) (c_tls c ++ d0)) as [t|] eqn:T; intros H; inversion H; subst; [|exact I].
+  pose proof (fun m Hm => tls_parse_bound m Hm _ _ _ (le_n _) T) as TB.
+  destruct I. constructor; cbn; try assumption. split; [exact B'|]. unfold top in *. lia.
 Qed.
 
 (* ---------- queues ---------- *)
@@ -405,11 +448,62 @@ Proof.
   intros I. unfold handle_new_cid.
   destruct (rpt >? seq); [intros H; inversion H; subst; exact I|].
   match goal with |- context[match ?x with Some _ => _ | None => _ end] => destruct x as [[active' avail3]|] end;
-    [|intros H; inversion H; subst; exact I].
-  match goal with |- context[if ?b then _ else _] => destruct b eqn:E1 end; [intros H; inversion H; subst; exact I|].
-  match goal with |- context[if ?b then _ else _] => destruct b eqn:E2 end; [intros H; inversion H; subst; exact I|].
+    [|destruct NCID_EMPTY_CLOSES; intros H; inversion H; subst; exact I].
+  destruct (1 + Zlen avail3 >? LOCAL_ACTIVE_CID_LIMIT) eqn:E1; [intros H; inversion H; subst; exact I|].
+  match goal with |- context[if (Zlen ?p >? ?q) then _ else _] => set (pend := p); destruct (Zlen pend >? q) eqn:E2 end; [intros H; inversion H; subst; exact I|].
   intros H; inversion H; subst; clear H. destruct I.
-  constructor; cbn [c_msd c_streams c_data c_bidi c_uni c_crypto c_chal c_lchal c_retire c_cid_avail set_cids]; try assumption; lia.
+  constructor; cbn [c_msd c_streams c_data c_bidi c_uni c_crypto c_chal c_lchal c_retire c_cid_avail c_gone c_tls c_paths set_cids]; try assumption; lia.
+Qed.
+
+Lemma add_chals_len ds : forall q, Zlen q <= MAX_REMOTE_CHALLENGES -> Zlen (add_chals q ds) <= MAX_REMOTE_CHALLENGES.
+Proof.
+  unfold add_chals. induction ds as [|d t IH]; intros q H; cbn [fold_left]; [exact H|]. apply IH.
+  destruct (Zlen q <? MAX_REMOTE_CHALLENGES) eqn:E; [|exact H]. rewrite Zlen_app. change (Zlen [d]) with 1. lia.
+Qed.
+
+Lemma pset_props a q l : Zlen q <= MAX_REMOTE_CHALLENGES ->
+  Forall (fun p => Zlen (snd p) <= MAX_REMOTE_CHALLENGES) l ->
+  Forall (fun p => Zlen (snd p) <= MAX_REMOTE_CHALLENGES) (pset a q l) /\ Zlen (pset a q l) = Zlen l.
+Proof.
+  intros Hq. induction 1 as [|[k q0] t H F IH]; cbn [pset]; [split; [constructor|reflexivity]|].
+  destruct IH as (I1 & I2). destruct (k =? a).
+  - split; [constructor; [exact Hq|exact F]|reflexivity].
+  - split; [constructor; [exact H|exact I1]|]. unfold Zlen in *. cbn [length]. lia.
+Qed.
+
+Lemma pfind_In a l q : pfind a l = Some q -> exists k, In (k, q) l.
+Proof.
+  induction l as [|[k q0] t IH]; cbn; [discriminate|]. destruct (k =? a).
+  - intros H; inversion H; subst. exists k. left. reflexivity.
+  - intros H. destruct (IH H) as (k' & Hk). exists k'. right. exact Hk.
+Qed.
+
+Lemma handle_path_packet_inv c addr ds r c' : CInv c -> handle_path_packet c addr ds = (r, c') -> CInv c'.
+Proof.
+  intros I. unfold handle_path_packet. pose proof (ci_pathq _ I) as F. pose proof (ci_pathn _ I) as N.
+  destruct (pfind addr (c_paths c)) as [q|] eqn:P.
+  - destruct (pfind_In _ _ _ P) as (k & Hk). rewrite Forall_forall in F. pose proof (F _ Hk) as Hq. cbn in Hq.
+    rewrite <- Forall_forall in F.
+    destruct (pset_props addr (add_chals q ds) (c_paths c) (add_chals_len ds q Hq) F) as (P1 & P2).
+    intros H; inversion H; subst. destruct I.
+    constructor; cbn [c_msd c_streams c_data c_bidi c_uni c_crypto c_chal c_lchal c_retire c_cid_avail c_gone c_tls c_paths set_paths];
+      try assumption. intros m Hm. rewrite P2. apply N, Hm.
+  - assert (FA : Forall (fun p => Zlen (snd p) <= MAX_REMOTE_CHALLENGES) (c_paths c ++ [(addr, add_chals [] ds)])).
+    { apply Forall_app; split; [exact F|]. constructor; [|constructor]. cbn. apply add_chals_len. vm_compute. discriminate. }
+    assert (LA : Zlen (c_paths c ++ [(addr, add_chals [] ds)]) = Zlen (c_paths c) + 1) by (rewrite Zlen_app; reflexivity).
+    remember (c_paths c ++ [(addr, add_chals [] ds)]) as l eqn:Hl. clear Hl.
+    destruct NETWORK_PATHS_CAP as [m|] eqn:Cap.
+    + specialize (N m eq_refl).
+      destruct (1 + Zlen l >? m) eqn:E; intros H; inversion H; subst; clear H; destruct I;
+        constructor; cbn [c_msd c_streams c_data c_bidi c_uni c_crypto c_chal c_lchal c_retire c_cid_avail c_gone c_tls c_paths set_paths];
+        try assumption.
+      * destruct l as [|p0 t]; cbn [tl]; [constructor|]. inversion FA; assumption.
+      * intros m0 Hm0. rewrite Cap in Hm0. inversion Hm0; subst. destruct l as [|p0 t]; [cbn; lia|]. cbn [tl].
+        unfold Zlen in *. cbn [length] in *. lia.
+      * intros m0 Hm0. rewrite Cap in Hm0. inversion Hm0; subst. lia.
+    + intros H; inversion H; subst; clear H; destruct I.
+      constructor; cbn [c_msd c_streams c_data c_bidi c_uni c_crypto c_chal c_lchal c_retire c_cid_avail c_gone c_tls c_paths set_paths];
+        try assumption. intros m0 Hm0. rewrite Cap in Hm0. discriminate.
 Qed.
 
 Lemma step_inv c o r c' : CInv c -> step c o = (r, c') -> CInv c'.
@@ -426,6 +520,7 @@ Proof.
   - apply handle_path_challenge_inv, I.
   - intros H; inversion H; subst. apply add_local_challenge_inv, I.
   - apply handle_new_cid_inv, I.
+  - apply handle_path_packet_inv, I.
 Qed.
 
 Lemma run_inv : forall ops c os c', CInv c -> run c ops = (os, c') -> CInv c'.
@@ -445,6 +540,14 @@ Proof.
   destruct H as (B & _). destruct B. unfold buf_of, hi_of, top in *. lia.
 Qed.
 
+Definition sum_chal (l : list (Z * list Z)) : Z := fold_right (fun p a => Zlen (snd p) + a) 0 l.
+
+Lemma sum_chal_le l : Forall (fun p => Zlen (snd p) <= MAX_REMOTE_CHALLENGES) l -> sum_chal l <= MAX_REMOTE_CHALLENGES * Zlen l.
+Proof.
+  induction 1 as [|p t H _ IH]; [cbn; lia|]. change (sum_chal (p :: t)) with (Zlen (snd p) + sum_chal t).
+  unfold Zlen in *. cbn [length]. lia.
+Qed.
+
 Lemma buffer_bounded_run : forall cl msd md cb ops os c,
   0 <= msd -> 0 <= md -> 0 <= cb ->
   run (conn_init cl msd md cb) ops = (os, c) ->
@@ -453,20 +556,34 @@ Lemma buffer_bounded_run : forall cl msd md cb ops os c,
      Zlen (r_buf (sm_recv s)) <= r_highest (sm_recv s) - r_start (sm_recv s) /\
      r_highest (sm_recv s) <= sm_msd s) /\
   sum_buf (c_streams c) <= sum_hi (c_streams c) /\
-  sum_hi (c_streams c) <= l_used (c_data c) /\
+  sum_hi (c_streams c) + c_gone c <= l_used (c_data c) /\ 0 <= c_gone c /\
   l_used (c_data c) <= l_value (c_data c) /\
   Zlen (r_buf (c_crypto c)) <= MAX_PENDING_CRYPTO /\
+  (forall m, TLS_MESSAGE_CAP = Some m -> Zlen (c_tls c) < Z.max 4 m) /\
   Zlen (c_chal c) <= MAX_REMOTE_CHALLENGES /\
+  (forall m, NETWORK_PATHS_CAP = Some m -> 1 <= m ->
+     Zlen (c_chal c) + sum_chal (c_paths c) <= m * MAX_REMOTE_CHALLENGES) /\
   Zlen (c_lchal c) <= MAX_LOCAL_CHALLENGES /\
   Zlen (c_retire c) <= Z.min (LOCAL_ACTIVE_CID_LIMIT * 4) MAX_PENDING_RETIRES /\
   1 + Zlen (c_cid_avail c) <= LOCAL_ACTIVE_CID_LIMIT.
 Proof.
   intros cl msd md cb ops os c H1 H2 H3 R.
   pose proof (run_inv _ _ _ _ (CInv_init cl msd md cb H1 H2 H3) R) as I. destruct I.
-  split; [|repeat split; try assumption; try apply sum_buf_le_hi; try apply ci_crypto0; assumption].
-  intros sid s Hin. rewrite Forall_forall in ci_streams0. destruct (ci_streams0 _ Hin) as (B & Hm). cbn in B, Hm.
-  destruct B. unfold top in *. lia.
+  split.
+  { intros sid s Hin. rewrite Forall_forall in ci_streams0. destruct (ci_streams0 _ Hin) as (B & Hm). cbn in B, Hm.
+    destruct B. unfold top in *. lia. }
+  split; [apply sum_buf_le_hi; assumption|]. split; [assumption|]. split; [assumption|]. split; [assumption|].
+  split; [apply ci_crypto0|]. split; [assumption|]. split; [assumption|].
+  split.
+  { intros m Hm Hm1. pose proof (sum_chal_le _ ci_pathq0). specialize (ci_pathn0 m Hm).
+    assert (0 <= MAX_REMOTE_CHALLENGES) by (vm_compute; discriminate). nia. }
+  repeat split; assumption.
 Qed.
+
+(* the caps exist in the tree under test (fails to check on a tree without them) *)
+Lemma caps_present :
+  (exists m, TLS_MESSAGE_CAP = Some m) /\ (exists m, NETWORK_PATHS_CAP = Some m /\ 1 <= m) /\ RESET_ADVANCES_HIGHEST = true.
+Proof. split; [eexists; reflexivity|]. split; [eexists; split; [reflexivity|vm_compute; discriminate]|reflexivity]. Qed.
 
 (* a run that pushes the buffered bytes of one never-completed stream to 2^n * the configured limit with n
    one-byte frames (the window is doubled on highest_offset, not on delivery to the application) *)
